@@ -152,6 +152,13 @@ def relevant(failure, vspec):
     which = vspec.get('which', 'all')
     if which == 'safety':
         return failure['safety']
+    labels = vspec.get('labels')
+    if labels is not None:
+        # a unit shared by several properties: only the clauses labelled for this property count
+        lab = failure.get('label')
+        if lab is None:
+            return bool(vspec.get('unlabelled', False))
+        return any(l in lab for l in labels)
     return True
 
 
